@@ -89,17 +89,34 @@ func paramsTok(m map[string]string) string {
 
 // probeRate calls a rate function a few times; a panic is reported by runCase as crash.
 func probeRate(fn api.RateFunction, interval time.Duration) string {
+	s, _ := probeRateVals(fn, interval)
+	return s
+}
+
+// probeRateVals also tells whether all probed values were equal (a constant rate without jitter must be).
+func probeRateVals(fn api.RateFunction, interval time.Duration) (string, bool) {
 	if interval <= 0 {
-		return "badinterval"
+		return "badinterval", true
 	}
 	if fn == nil {
-		return "nilrate"
+		return "nilrate", true
 	}
 	t := baseTime
+	same := true
+	first := 0
 	for i := 0; i < 25; i++ {
-		fn(t)
+		v := fn(t)
+		if i == 0 {
+			first = v
+		} else if v != first {
+			same = false
+		}
 		t = t.Add(interval)
 	}
+	return probeTicker(interval), same
+}
+
+func probeTicker(interval time.Duration) string {
 	// the trigger would create this ticker
 	tk := time.NewTicker(interval)
 	tk.Stop()
@@ -157,14 +174,19 @@ func init() {
 			return "err"
 		}
 		probe := "ok"
-		var parts []string
+		var parts, vars []string
 		for _, st := range rs.Stages {
 			if st.UsersConcurrency == 0 {
-				if p := probeRate(st.Rate, st.IterationDuration); p != "ok" {
+				p, same := probeRateVals(st.Rate, st.IterationDuration)
+				if p != "ok" {
 					probe = p
 				}
-			} else if st.UsersConcurrency < 1 {
-				probe = "nousers"
+				vars = append(vars, boolTok(same))
+			} else {
+				vars = append(vars, "-")
+				if st.UsersConcurrency < 1 {
+					probe = "nousers"
+				}
 			}
 			parts = append(parts, fmt.Sprintf("%d/%d/%d/%s", int64(st.StageDuration), int64(st.IterationDuration),
 				st.UsersConcurrency, paramsTok(st.Params)))
@@ -173,9 +195,13 @@ func init() {
 		if len(parts) > 0 {
 			stTok = strings.Join(parts, ";")
 		}
-		return fmt.Sprintf("ok %s %d %d %d %d %d %d %s %s probe=%s", tohex(rs.Scenario), int64(rs.VerifTotalDuration()),
+		varsTok := "-"
+		if len(vars) > 0 {
+			varsTok = strings.Join(vars, ",")
+		}
+		return fmt.Sprintf("ok %s %d %d %d %d %d %d %s %s probe=%s same=%s", tohex(rs.Scenario), int64(rs.VerifTotalDuration()),
 			int64(rs.MaxDuration), rs.Concurrency, rs.MaxIterations, rs.VerifMaxFailures(), rs.VerifMaxFailuresRate(),
-			boolTok(rs.IgnoreDropped), stTok, probe)
+			boolTok(rs.IgnoreDropped), stTok, probe, varsTok)
 	})
 
 	ratesOut := func(r *api.Rates, err error) string {
